@@ -218,3 +218,59 @@ func src2(n ast.Node) string {
 	goprinter.Fprint(&sb, fset, n)
 	return sb.String()
 }
+
+// structSchema: the fields of a struct type as declared (name and type expression, in order) - the shape the Lean
+// model's struct encoders assume; a reordered, added, removed or retyped field changes Generated.lean and breaks the
+// shape theorems of Props/C20.lean
+func structSchema(repo, dir, name string) []string {
+	for _, f := range load(repo, dir) {
+		for _, d := range f.Decls {
+			gd, ok := d.(*ast.GenDecl)
+			if !ok {
+				continue
+			}
+			for _, sp := range gd.Specs {
+				ts, ok := sp.(*ast.TypeSpec)
+				if !ok || ts.Name.Name != name {
+					continue
+				}
+				st, ok := ts.Type.(*ast.StructType)
+				if !ok {
+					fatal("%s.%s is not a struct", dir, name)
+				}
+				var out []string
+				for _, fl := range st.Fields.List {
+					t := src(fl.Type)
+					if len(fl.Names) == 0 {
+						out = append(out, fmt.Sprintf("(%q, %q)", "", t))
+					}
+					for _, n := range fl.Names {
+						out = append(out, fmt.Sprintf("(%q, %q)", n.Name, t))
+					}
+				}
+				return out
+			}
+		}
+	}
+	fatal("struct %s not found in %s", name, dir)
+	return nil
+}
+
+func schemaLean(repo string) []string {
+	var out []string
+	for _, t := range []struct{ dir, name, lean string }{
+		{"x/pos/types", "Validator", "schemaValidator"},
+		{"x/pos/types", "ValidatorSigningInfo", "schemaSigningInfo"},
+		{"x/pos/types", "MsgSend", "schemaMsgSend"},
+		{"x/pos/types", "MsgBeginUnstake", "schemaMsgBeginUnstake"},
+		{"x/pos/types", "MsgUnjail", "schemaMsgUnjail"},
+		{"x/gov/types", "MsgDAOTransfer", "schemaMsgDAOTransfer"},
+		{"x/gov/types", "MsgChangeParam", "schemaMsgChangeParam"},
+		{"x/auth/types", "StdTx", "schemaStdTx"},
+		{"x/auth/types", "StdSignature", "schemaStdSignature"},
+		{"types", "Coin", "schemaCoin"},
+	} {
+		out = append(out, fmt.Sprintf("def %s : List (String × String) := [%s]\n", t.lean, strings.Join(structSchema(repo, t.dir, t.name), ", ")))
+	}
+	return out
+}
